@@ -2,6 +2,12 @@
 // and the REAL GenericSolver (mtest/src/GenericSolver.cxx), all compiled from the working tree.
 //   SEQ <algo> <np> (pname pvalue)* <dim> <niter> <eeps> <seps> then niter x (u1[dim] du[dim] r[dim])
 //        -> O <niter*dim values, %a>        (initialize(dim); preExecuteTasks(); execute(...,iter) for iter=1..niter)
+//   SEQI <algo> <np> (pname pvalue)* <dim> <n> <eeps> <seps> then n x (iter u1[dim] du[dim] r[dim])
+//        -> O <n*dim values>   as SEQ, but every entry carries its iteration number: several resolutions in a row
+//           (iter = 1 starts a new one: postExecuteTasks(); preExecuteTasks(), as GenericSolver::iterate does)
+//   VERD <ppolicy> <iterMax> <mSubSteps> <ti> <te> <n> <v1 .. vn>
+//        -> V <done|raise> then, per call of iterate, `t dt iterations accepted`: the REAL GenericSolver::execute around a study whose
+//           checkConvergence answers the scripted verdicts (control flow of iterate/execute: iterMax, sub-stepping)
 //   LOOP <algo> <np> (pname pvalue)* <dim> <niter> <eeps> <seps> <kk> <xs[dim]> <M[dim*dim]> <x0[dim]>
 //        -> L <(niter+1)*dim values>   closed loop x_{n+1} = accelerate(G(x_n)), G(x) = xs + M (x - xs), du = x - G(x), r = kk*du
 //   SOLVE <algo|none> <np> (pname pvalue)* <N> <A: N*N> <b: N> <g> <s> <ppolicy> <ktype> <rounding> <eeps> <seps> <iterMax>
@@ -105,11 +111,87 @@ struct AffineStudy final : mtest::Study {
     for (std::size_t i = 0; i != this->N; ++i) n = std::max(n, std::abs(v[i]));
     return n;
   }
+  // what the solver did with the verdicts: a step accepted (postConvergence) although the last verdict was `not converged`
+  mutable bool last_verdict = false;
+  mutable unsigned int checks = 0, accepted = 0, accepted_not_converged = 0;
   bool checkConvergence(mtest::StudyCurrentState&, const tfel::math::vector<real>& du, const tfel::math::vector<real>& r,
-                        const mtest::SolverOptions& o, const unsigned int, const real, const real) const override {
+                        const mtest::SolverOptions& o, const unsigned int iter, const real, const real) const override {
     const real ne = this->getErrorNorm(du), nr = this->getErrorNorm(r);
+    ++(this->checks);
+    this->last_verdict = false;
     if (!std::isfinite(ne) || !std::isfinite(nr)) return false;
-    return !((ne > o.eeps) || (nr > o.seps));
+    this->last_verdict = !((ne > o.eeps) || (nr > o.seps));
+    // GenericSolver never accepts the first iteration without prediction
+    if ((o.ppolicy == mtest::PredictionPolicy::NOPREDICTION) && (iter <= 1)) this->last_verdict_counts = false;
+    else this->last_verdict_counts = this->last_verdict;
+    return this->last_verdict;
+  }
+  mutable bool last_verdict_counts = false;
+  std::vector<std::string> getFailedCriteriaDiagnostic(const mtest::StudyCurrentState&, const tfel::math::vector<real>&,
+                                                       const tfel::math::vector<real>&, const mtest::SolverOptions&,
+                                                       const real, const real) const override {
+    return {};
+  }
+  void computeLoadingCorrection(mtest::StudyCurrentState&, mtest::SolverWorkSpace&, const mtest::SolverOptions&, const real,
+                                const real) const override {}
+  bool postConvergence(mtest::StudyCurrentState&, const real, const real, const unsigned int) const override {
+    ++(this->accepted);
+    if (!this->last_verdict_counts) ++(this->accepted_not_converged);
+    return true;
+  }
+  void setModellingHypothesis(const std::string&) override {}
+  void printOutput(const real, const mtest::StudyCurrentState&, const bool) const override {}
+  void setDefaultModellingHypothesis() override {}
+
+ protected:
+  void setGaussPointPositionForEvolutionsEvaluation(const mtest::CurrentState&) const override {}
+};
+
+// a study reduced to the verdicts of its convergence test (one unknown, K = 1, r = 0)
+struct VerdictStudy final : mtest::Study {
+  std::vector<int> verdicts;
+  mutable std::size_t next = 0;
+  struct Event {
+    real t, dt;
+    unsigned int n;
+    bool accepted;
+  };
+  mutable std::vector<Event> events;
+  size_type getNumberOfUnknowns() const override { return 1; }
+  void initializeCurrentState(mtest::StudyCurrentState& scs) const override { scs.initialize(1); }
+  void initializeWorkSpace(mtest::SolverWorkSpace& wk) const override {
+    wk.K.resize(1, 1);
+    wk.p_lu.resize(1);
+    wk.x.resize(1);
+    wk.r.resize(1, 0.);
+    wk.du.resize(1, 0.);
+  }
+  std::pair<bool, real> prepare(mtest::StudyCurrentState&, const real t, const real dt) const override {
+    this->events.push_back({t, dt, 0u, false});
+    return {true, 1};
+  }
+  void makeLinearPrediction(mtest::StudyCurrentState&, const real) const override {}
+  bool doPackagingStep(mtest::StudyCurrentState&) const override { return true; }
+  std::pair<bool, real> computePredictionStiffnessAndResidual(mtest::StudyCurrentState&, tfel::math::matrix<real>& K,
+                                                               tfel::math::vector<real>& r, const real&, const real&,
+                                                               const mtest::StiffnessMatrixType) const override {
+    K(0, 0) = 1;
+    r[0] = 0;
+    return {true, 1};
+  }
+  std::pair<bool, real> computeStiffnessMatrixAndResidual(mtest::StudyCurrentState&, tfel::math::matrix<real>& K,
+                                                           tfel::math::vector<real>& r, const real, const real,
+                                                           const mtest::StiffnessMatrixType) const override {
+    K(0, 0) = 1;
+    r[0] = 0;
+    return {true, 1};
+  }
+  real getErrorNorm(const tfel::math::vector<real>& v) const override { return std::abs(v[0]); }
+  bool checkConvergence(mtest::StudyCurrentState&, const tfel::math::vector<real>&, const tfel::math::vector<real>&,
+                        const mtest::SolverOptions&, const unsigned int, const real, const real) const override {
+    if (!this->events.empty()) ++(this->events.back().n);
+    if (this->next >= this->verdicts.size()) throw std::runtime_error("script exhausted");
+    return this->verdicts[this->next++] != 0;
   }
   std::vector<std::string> getFailedCriteriaDiagnostic(const mtest::StudyCurrentState&, const tfel::math::vector<real>&,
                                                        const tfel::math::vector<real>&, const mtest::SolverOptions&,
@@ -118,7 +200,10 @@ struct AffineStudy final : mtest::Study {
   }
   void computeLoadingCorrection(mtest::StudyCurrentState&, mtest::SolverWorkSpace&, const mtest::SolverOptions&, const real,
                                 const real) const override {}
-  bool postConvergence(mtest::StudyCurrentState&, const real, const real, const unsigned int) const override { return true; }
+  bool postConvergence(mtest::StudyCurrentState&, const real, const real, const unsigned int) const override {
+    if (!this->events.empty()) this->events.back().accepted = true;
+    return true;
+  }
   void setModellingHypothesis(const std::string&) override {}
   void printOutput(const real, const mtest::StudyCurrentState&, const bool) const override {}
   void setDefaultModellingHypothesis() override {}
@@ -165,6 +250,57 @@ int main() {
           for (const auto& x : u1) std::printf(" %a", x);
         }
         a->postExecuteTasks();
+        std::printf("\n");
+      } else if (cmd == "SEQI") {
+        auto a = make_algorithm(is);
+        std::size_t dim, n;
+        is >> dim >> n;
+        const real eeps = rd(is), seps = rd(is);
+        a->initialize(static_cast<unsigned short>(dim));
+        a->preExecuteTasks();
+        tfel::math::vector<real> u1(dim), du(dim), r(dim);
+        std::printf("O");
+        for (std::size_t k = 0; k != n; ++k) {
+          unsigned int it;
+          is >> it;
+          if ((it == 1u) && (k != 0)) {
+            a->postExecuteTasks();
+            a->preExecuteTasks();
+          }
+          for (auto& x : u1) x = rd(is);
+          for (auto& x : du) x = rd(is);
+          for (auto& x : r) x = rd(is);
+          a->execute(u1, du, r, eeps, seps, static_cast<unsigned short>(it));
+          for (const auto& x : u1) std::printf(" %a", x);
+        }
+        a->postExecuteTasks();
+        std::printf("\n");
+      } else if (cmd == "VERD") {
+        mtest::SolverOptions o;
+        VerdictStudy s;
+        int pp;
+        is >> pp >> o.iterMax >> o.mSubSteps;
+        o.ppolicy = static_cast<mtest::PredictionPolicy>(pp);
+        o.ktype = mtest::StiffnessMatrixType::ELASTIC;
+        o.eeps = 1;
+        o.seps = 1;
+        const real ti = rd(is), te = rd(is);
+        std::size_t n;
+        is >> n;
+        s.verdicts.resize(n);
+        for (auto& v : s.verdicts) is >> v;
+        mtest::StudyCurrentState scs;
+        mtest::SolverWorkSpace wk;
+        s.initializeCurrentState(scs);
+        s.initializeWorkSpace(wk);
+        std::string status = "done";
+        try {
+          mtest::GenericSolver().execute(scs, wk, s, o, ti, te);
+        } catch (std::exception& e) {
+          status = std::string(e.what()).find("script exhausted") != std::string::npos ? "exhausted" : "raise";
+        }
+        std::printf("V %s", status.c_str());
+        for (const auto& e : s.events) std::printf(" %a %a %u %d", e.t, e.dt, e.n, e.accepted ? 1 : 0);
         std::printf("\n");
       } else if (cmd == "LOOP") {
         auto a = make_algorithm(is);
@@ -234,7 +370,7 @@ int main() {
           status = "raise";
         }
         mtest::setRoundingMode("ToNearest");
-        std::printf("R %s %u %u U", status.c_str(), scs.iterations, scs.subSteps);
+        std::printf("R %s %u %u %u %u U", status.c_str(), scs.iterations, scs.subSteps, s.accepted, s.accepted_not_converged);
         for (const auto& x : res) std::printf(" %a", x);
         std::printf("\n");
       } else {
